@@ -198,6 +198,9 @@ func (x *Ctx) runesFor(streams []int, n int) {
 		s, r := x.g.runeCase(streams[i%len(streams)])
 		x.run("IndexRune", s, nil, r)
 		x.run("ContainsRune", s, nil, r)
+		if i%5 == 0 {
+			x.internalRune(s, r)
+		}
 	}
 }
 
@@ -207,6 +210,9 @@ func (x *Ctx) bytesFor(streams []int, n int) {
 		x.run("IndexByte", s, nil, c)
 		x.run("LastIndexByte", s, nil, c)
 		x.run("IndexByteASCII", s, nil, c)
+		if i%5 == 0 {
+			x.internalByte(s, c)
+		}
 	}
 }
 
